@@ -65,3 +65,83 @@ def may_return_err(fx, bodies):
 def field_calls(fn, rx, field):
     """calls matching rx whose receiver designates a place containing `.field`"""
     return [c for c in fn.calls(rx) if ("." + field) in fn.recv(c)]
+
+
+def derives_from_field(fn, o, field, depth=0):
+    """does operand o designate (through borrows and Entry/Option adaptor calls) a place inside `.field`"""
+    if depth > 6:
+        return False
+    org = fn.origin(o)
+    if ("." + field) in org:
+        return True
+    pr = fn.producer(o)
+    if pr is None or not pr.args:
+        return False
+    if pr.matches(r"Entry.*::(or_default|or_insert|or_insert_with)$|HashMap::(entry|get_mut|get)$|Option::(unwrap|expect|unwrap_or_default)$|Deref(Mut)?>?::deref(_mut)?$|VacantEntry.*::insert$|OccupiedEntry.*::(get_mut|into_mut)$"):
+        return derives_from_field(fn, pr.args[0], field, depth + 1)
+    return False
+
+
+def park_nodes(fn, field):
+    """nodes that store a value into the map `.field`: HashMap::insert on it, or a Vec::push / VecDeque::push_back /
+    HashSet::insert into an element obtained from it (entry(..).or_default().push(..))"""
+    out = [c for c in field_calls(fn, r"HashMap::insert$", field)]
+    for c in fn.calls(r"(Vec|VecDeque)::(push|push_back)$|HashSet::insert$"):
+        if c.args and ("." + field) not in fn.recv(c) and derives_from_field(fn, c.args[0], field):
+            out.append(c)
+    return out
+
+
+def loop_discharge_pushes(fn, discharge_nodes):
+    """Vec::push into a *local* vector that is later consumed by a loop whose every iteration passes a discharge:
+    a deferred discharge.  -> set of push nodes"""
+    from paths import refine_cuts, region_uncovered
+    out = set()
+    for it in fn.calls(r"IntoIterator>?::into_iter$"):
+        if not it.args:
+            continue
+        src = fn.origin(it.args[0])
+        m = re.match(r"^&?_(\d+)$", src)
+        if not m:
+            continue
+        loc = int(m.group(1))
+        # the iterator's next() call
+        nxt = None
+        for c in fn.calls(r"Iterator>?::next$"):
+            pr = c.args and fn.origin(c.args[0])
+            if pr and re.match(r"^&?_%d\b" % it.dest[0], pr):
+                nxt = c
+        if nxt is None:
+            continue
+        cuts = refine_cuts(fn, nxt, ["Some", "?"])
+        if region_uncovered(fn, nxt.node, discharge_nodes, cuts=cuts) is not None:
+            continue
+        for p in fn.calls(r"Vec::push$"):
+            if re.match(r"^&_%d$" % loc, fn.recv(p)):
+                out.add(p.node)
+    return out
+
+
+def removal_discharged(fn, rm, chain, discharge_nodes, allowed_exits=()):
+    """K1 for an obligation taken out of a container: every path from the `chain` edge of the removal call to an exit
+    passes a discharge; if the removed value is a collection that is iterated, every iteration must discharge and
+    the loop must be on every path.  -> list of (exit_node, witness_path) violations"""
+    from paths import refine_cuts, region_uncovered
+    cuts = refine_cuts(fn, rm, chain)
+    dis = set(discharge_nodes) | loop_discharge_pushes(fn, discharge_nodes)
+    exits = dict(fn.exits())
+    r = fn.reach([rm.node], avoid=dis, cut=cuts, after=True)
+    bad = [n for n in exits if n in r and n not in allowed_exits]
+    if not bad:
+        return []
+    # loop form: iteration over the removed collection
+    for nx in fn.calls(r"Iterator>?::next$"):
+        if nx.node not in fn.reach([rm.node], cut=cuts, after=True):
+            continue
+        r2 = fn.reach([rm.node], avoid=dis | {nx.node}, cut=cuts, after=True)
+        if any(n in r2 for n in bad):
+            continue
+        c2 = refine_cuts(fn, nx, ["Some", "?"])
+        if region_uncovered(fn, nx.node, dis, cuts=c2) is None:
+            return []
+    return [(n, fn.witness_path([rm.node], [n], avoid=dis, cut=cuts, after=True)) for n in bad]
